@@ -17,6 +17,7 @@ ID = 'C04'
 NEEDS_BUILTIN_WRAPPERS = True      # reads what the builtin monitor records (hooks / effect log)
 LEVEL = 'exploration'
 TIERS = {'quick': 12000, 'thorough': 600000}
+WALL_CAP = 400       # a tree that powers host ints natively needs tens of seconds for one operation: it must end in a verdict
 RULE = ('seeded chains of 5-30 single-statement evals over persistent host-typed numeric variables (int, long int, bool, '
         'float, Decimal with large exponents / long coefficients) plus a str and a list: r = a op b for + - * / ** and '
         'unary minus, a op= b, c[k] op= b, and the numeric builtins int float round floor ceil abs sum min max; oracle per '
